@@ -34,6 +34,7 @@ def run(rep, ctx):
     rep.run_rule("C10.R4", "result container: tuple iff IsTuple(), which depends only on the iterated operands", r4_container, ctx)
     rep.run_rule("C10.R5", "FromScalars converts every element with the unit given to the constructor", r5_from_scalars, ctx)
     rep.run_rule("C10.R6", "the pair generator passes operands through unchanged", r6_passthrough, ctx)
+    rep.run_rule("C10.R8", "no method of Array/FixedArray uses the values container in a truth context (ndarray truth values are ambiguous)", r8_no_truth_test_on_values, ctx)
     rep.run_rule("C10.R7", "Array.GetAbstractValue converts every element to the requested unit", r7_getvalues, ctx)
     rep.not_decided += [
         "that numpy's vectorised evaluation equals per-element evaluation (trusted library semantics)",
@@ -366,6 +367,55 @@ def r6_passthrough(rep, ctx):
             known_false = any(k == "truth" and not pos and ires.term(l_) == NUMPY for k, l_, r_, pos in nfacts(icfg, icfg.node_of(y)))
             rep.check(known_false, "C10.R6", "_ValueGenerator.__iter__:non-numpy:%s" % norm(ast.unparse(y)), "an operand is iterated element by element only when no operand is an ndarray",
                       "`%s` is reached without IsNumpy() being known false: with an ndarray on one side the whole array is paired with single elements of the other operand" % norm(ast.unparse(y)), node=y, fn=it)
+
+
+def r8_no_truth_test_on_values(rep, ctx):
+    """Container-kind independence: the values of an Array may be an ndarray, whose truth value raises for more
+    than one element.  No method of Array / FixedArray may use the values container in a truth context
+    (`if values`, `values and ...`, `not values`, conditional expressions, assert); `len(values) > 0` is the
+    container-independent spelling."""
+    m = ctx.model
+    n = 0
+
+    def is_values(t):
+        for a_ in alternatives(t):
+            if a_ in (("field", "_values"), ("field", "values")):
+                return True
+            if a_[0] == "attr" and a_[2] in ("values", "_values"):
+                return True
+            if a_[0] == "call" and a_[1][0] in ("field", "attr") and (a_[1][1] if a_[1][0] == "field" else a_[1][2]) in ("GetValues", "GetAbstractValue") and a_[1][0] == "field":
+                return True
+        return False
+
+    for cname in ("Array", "FixedArray"):
+        for name, fn in sorted(m.classes[cname].methods.items()):
+            if fn.cls != cname:
+                continue
+            res = Resolver(m, fn)
+            ctxs = []
+            for x in own_nodes(fn.node):
+                if isinstance(x, (ast.If, ast.While, ast.IfExp, ast.Assert)):
+                    ctxs.append(x.test)
+                elif isinstance(x, ast.BoolOp):
+                    ctxs.extend(x.values)
+                elif isinstance(x, ast.UnaryOp) and isinstance(x.op, ast.Not):
+                    ctxs.append(x.operand)
+                elif isinstance(x, ast.comprehension):
+                    ctxs.extend(x.ifs)
+            seen = set()
+            for e in ctxs:
+                while isinstance(e, ast.UnaryOp) and isinstance(e.op, ast.Not):
+                    e = e.operand
+                if isinstance(e, ast.BoolOp) or id(e) in seen:
+                    continue
+                seen.add(id(e))
+                if not isinstance(e, (ast.Name, ast.Attribute, ast.Call)):
+                    continue
+                n += 1
+                if is_values(res.term(e)):
+                    rep.bad("C10.R8", "%s.%s:truth-of-values:%s" % (cname, name, norm(ast.unparse(e))[:40]), "%s.%s tests the truth value of the values container (`%s`): with a numpy-backed array of more than one element this raises ValueError, so the result depends on the container kind" % (cname, name, norm(ast.unparse(e))[:60]), node=e, fn=fn)
+    rep.ok("C10.R8", "truth-contexts-examined", "%d truth contexts of Array/FixedArray methods examined; none tests the values container itself" % n)
+    rep.floor("C10.R8", "truth contexts examined", n, 5)
 
 
 def r7_getvalues(rep, ctx):
